@@ -75,6 +75,46 @@ def rerun_after_caller_mutation(run, case, scratch):
                       "lists the first run published", {"case": case, "first": {"data": d1, "ctx": c1}, "second": {"data": d2, "ctx": c2}})
 
 
+def rerun_with_other_context(run, case, scratch):
+    """One Pipeline object, two payloads: the second payload's from_context sequences differ from the first one's.  The
+    second run must sweep ITS OWN context (compared with the reference on the second payload)."""
+    from semantiva.context_processors.context_types import ContextType
+    from semantiva.pipeline.payload import Payload
+    from vlib import account, refmodel as rm
+
+    import copy
+
+    ctx2 = copy.deepcopy(case["ctx"])
+    changed = False
+    for k, v in ctx2.items():
+        if isinstance(v, list) and v and all(isinstance(x, float) for x in v):
+            ctx2[k] = [x * 2.0 + 1.0 for x in v] + [7.25]
+            changed = True
+    if not changed:
+        return
+    try:
+        m2 = rm.run_pipeline(case["nodes"], case["data"], ctx2)
+    except rm.ConfigRejected:
+        return
+    if not m2.ok or m2.dontcare:
+        return
+    try:
+        pipe = account.build_pipeline(case["nodes"])
+        pipe.process(Payload(account.to_real_data(case["data"]), ContextType(copy.deepcopy(case["ctx"]))))
+        out2 = pipe.process(Payload(account.to_real_data(case["data"]), ContextType(copy.deepcopy(ctx2))))
+    except Exception as exc:
+        run.violation("second_payload_on_same_pipeline_differs_from_reference",
+                      f"the same Pipeline object raised {type(exc).__name__}: {str(exc)[:120]} on a second payload whose from_context sequences differ "
+                      f"from the first payload's (the reference succeeds)", {"case": case, "ctx2": ctx2})
+        return
+    run.count("reruns_with_other_context")
+    d2, c2 = account.plain(out2.data), account.plain(out2.context.to_dict())
+    if not (account.close(m2.data, d2) and account.close(m2.ctx, c2)):
+        run.violation("second_payload_on_same_pipeline_differs_from_reference",
+                      "the second payload processed by one Pipeline object (other from_context sequences than the first) does not give the documented "
+                      "result for ITS context", {"case": case, "ctx2": ctx2, "model": {"data": m2.data, "ctx": m2.ctx}, "real": {"data": d2, "ctx": c2}})
+
+
 def run(run):
     boot.boot()
     from vlib import gen, refmodel as rm
@@ -90,8 +130,10 @@ def run(run):
             m = compare(run, case, via_yaml=(i % 3 == 2), scratch=scratch)
             if m is None:
                 continue
-            if i % 4 == 1 and m.ok:
+            if i % 8 == 1 and m.ok:
                 rerun_after_caller_mutation(run, case, scratch)
+            if i % 8 == 5 and m.ok and not m.dontcare:
+                rerun_with_other_context(run, case, scratch)
             steps = 0
             nontrivial = False
             for nm in m.models:
@@ -141,6 +183,7 @@ def replay(run, witness):
     try:
         compare(run, witness["case"], witness.get("via_yaml", False), scratch)
         rerun_after_caller_mutation(run, witness["case"], scratch)
+        rerun_with_other_context(run, witness["case"], scratch)
         run.case(witness["case"], True, sample=witness["case"])
         run.case("replay-second-slot", True)
     finally:
